@@ -2,6 +2,7 @@
 from __future__ import annotations
 
 import json
+import re
 import os
 import subprocess
 import sys
@@ -322,7 +323,8 @@ def run_property(prop, tier, seed, args):
     # ---- evidence -------------------------------------------------------------------------
     by_backend = {}
     for o in discharged:
-        by_backend[o.backend] = by_backend.get(o.backend, 0) + 1
+        bk = re.sub(r" \[cone of influence depth \d+: \d+ of \d+ hypotheses\]", " [cone-of-influence subset of the hypotheses]", o.backend or "?")
+        by_backend[bk] = by_backend.get(bk, 0) + 1
     trusted = list(GLOBAL_ASSUMPTIONS)
     trusted += sorted(eng.trusted)
     trusted += [f"callee contract used at call sites (proved under its own unit): {k}" for k in sorted(eng.trusted_calls)]
